@@ -138,7 +138,16 @@ Found(cur, new, c) ==
                       E.resp.pts[y].i \in DOMAIN P /\ E.resp.pts[y].v = P[E.resp.pts[y].i]
        [] OTHER -> FALSE
 
+\* A user id that is not a plain name ("." / ".." would be resolved as a path) may be turned away at the
+\* door: then every request of that user is refused (400), the user never owns anything, and there is nothing
+\* it could do to the other user.  Decided per history by what the first observation showed.
+RefusedObs(o) ==
+  /\ o.lc = 400 /\ Len(o.list) = 0
+  /\ \A x \in 1..Len(o.cols) : o.cols[x].code = 400 /\ Len(o.cols[x].k) = 0 /\ Len(o.cols[x].pts) = 0
+Refd(u) == hist.obs[u].lc = 400
+
 OwnStep(u, o) ==
+  IF Refd(u) THEN E.u = u /\ E.cls = "invalid" /\ RefusedObs(o) ELSE
   LET cur == m[u]
       new == Abs(o)
       c == E.c
@@ -182,7 +191,9 @@ THist ==
   /\ ~conc
   /\ hist' = E
   /\ \A x, y \in 1..Len(E.names) : x # y => E.names[x].s # E.names[y].s
-  /\ \A x \in 1..2 : E.obs[x].lc = 200 /\ Len(E.obs[x].list) = 0 /\ \A y \in 1..Len(E.obs[x].cols) : E.obs[x].cols[y].code = 404
+  /\ \A x \in 1..2 :
+        \/ E.obs[x].lc = 200 /\ Len(E.obs[x].list) = 0 /\ \A y \in 1..Len(E.obs[x].cols) : E.obs[x].cols[y].code = 404
+        \/ E.users[x] \in {".", ".."} /\ RefusedObs(E.obs[x])
   /\ m' = <<Abs(E.obs[1]), Abs(E.obs[2])>>
   /\ po' = E.obs
   /\ taint' = FALSE
